@@ -262,9 +262,10 @@ def participant_replay(w):
         second = next((t for t in tr if t['step'].get('do') == 'prepare' and t['step'].get('tx') == 2), None)
         granted = bool(second) and isinstance(second['outcome'], dict) and second['outcome'].get('vote') == 'yes'
         same_key = w['k2'] == w['k1']
-        after_commit = next((t['store'] for t in tr if t['step'].get('do') == 'commit'), None)
-        after_abort = tr[-1]['store'] if tr else None
-        return rep, bool(granted and same_key and after_commit != after_abort)
+        # Q2 itself: both transactions are prepared on the one key at the same time (the data loss that follows when the
+        # first one is aborted late is in the trace for the record; it is not visible when both operations delete)
+        both = bool(second) and second.get('prepared') == 2
+        return rep, bool(granted and same_key and both)
     t_hit = w.get('t') == w['t1']
     steps.append({'do': call if call != 'cleanup_stale' else 'abort', 'tx': 1 if t_hit else 99})
     watch = sorted({key(k) for k in w['store']} | {key(w['k1'])})
